@@ -72,6 +72,19 @@ def gen(stream, rng, i, cfg):
         excs = rng.sample(EXC_CATALOGUE, k)
         slot = scen.gen_slot(rng, fault=rng.choice([0.15, 0.4, 0.8]), hostile=rng.random() < 0.6, excs=excs)
     scen.LAZY[0] = False
+    if stream == 'fault' and rng.random() < 0.25:
+        # a callback that re-enters the same parser with a (possibly broken) formula, once or on every call;
+        # 'maxdepth' keeps the scripted host itself from recursing
+        e0 = scen.slot_env(slot)
+        inner = formgen.g3_tree(rng, e0, rng.choice([0, 1, 2]))
+        if rng.random() < 0.6:
+            inner = formgen.g4_damage(rng, inner)
+        act = {'a': 'nested', 'slot': 0, 'f': inner, 'maxdepth': 1, 'use': rng.random() < 0.7}
+        if rng.random() < 0.5:
+            slot['functions']['REENTER'] = [act]
+        else:
+            ev = rng.choice(['callCellValue', 'callRangeValue', 'callVariable', 'callFunction'])
+            slot['listeners'].setdefault(ev, []).insert(0, [act])
     env = scen.slot_env(slot)
     forms, gens = [], []
     for _ in range(FORMULAS_PER_SCENARIO):
